@@ -73,6 +73,9 @@ def gen(rng, tier, index):
     if "restart" not in [o[0] for o in ops]:
         ops.insert(rng.randrange(len(ops) // 2, len(ops)), ["restart"])
         ops.append(["line", "255;255;3;0;3;"])
+    for op in ops:
+        if op[0] == "restart" and len(op) == 1 and rng.random() < 0.3:
+            op.append({"immediate": True})
     return {"cfg": cfg, "ops": ops}
 
 
